@@ -147,6 +147,7 @@ func ruleR11(c *Ctx, prop string) {
 	for _, f := range loops {
 		c.checkConvLoops(f, subImage, full)
 	}
+	c.checkSubImage(subImage)
 	if full {
 		c.checkConvIndexKinds(oi)
 		c.checkAutoPad(oi)
@@ -347,10 +348,11 @@ const (
 	iPadsTail   // spatial + nSpatial
 	iFullRange
 	iPadsRange
+	iSpatialPlusConst // spatial + k for a constant k other than the non-spatial offset
 )
 
 func (k idxKind) String() string {
-	return [...]string{"?", "CONST", "NONSPATIAL", "SPATIAL", "SPATIAL+2", "SPATIAL+nSpatial", "FULL-RANGE", "PADS-RANGE"}[k]
+	return [...]string{"?", "CONST", "NONSPATIAL", "SPATIAL", "SPATIAL+2", "SPATIAL+nSpatial", "FULL-RANGE", "PADS-RANGE", "SPATIAL+const"}[k]
 }
 
 type kindCtx struct {
@@ -501,6 +503,12 @@ func (k *kindCtx) indexKind(v ssa.Value, depth int) idxKind {
 		if two, isK := constInt(bo.Y); isK && two == 2 && k.indexKind(bo.X, depth+1) == iSpatial {
 			return iSpatialOff
 		}
+		if kk, isK := constInt(bo.Y); isK && kk != 2 && k.indexKind(bo.X, depth+1) == iSpatial {
+			return iSpatialPlusConst
+		}
+		if kk, isK := constInt(bo.X); isK && kk != 2 && k.indexKind(bo.Y, depth+1) == iSpatial {
+			return iSpatialPlusConst
+		}
 		if k.indexKind(bo.X, depth+1) == iSpatial && k.lenKind(bo.Y, depth+1) == kSpatial {
 			return iPadsTail
 		}
@@ -559,8 +567,12 @@ func (c *Ctx) checkConvIndexKinds(oi *opInfo) {
 					c.note("R11", key, c.pos(ia.Pos()), fmt.Sprintf("%s list indexed by an index of unclassified kind", sk))
 					continue
 				}
+				if ik == iConst && (sk == kSpatial || sk == kPads) && kc.inSpatialLoop(b) {
+					c.violate("R11", key, c.pos(ia.Pos()), fmt.Sprintf("inside a loop over the spatial axes a %s list is read at a fixed position: every axis gets the value of one axis (wrong as soon as strides/kernel/pads differ per axis)", sk))
+					continue
+				}
 				c.decide(legalIndex[sk][ik], "R11", key, c.pos(ia.Pos()), fmt.Sprintf("%s[%s]", sk, ik),
-					fmt.Sprintf("a %s list (one entry per tensor axis N,C,H,W..) is indexed with a %s index: spatial axis i of the input is axis 2+i of its shape, so this reads the batch/channel extents instead of the spatial ones (invisible on square fixtures)", sk, ik))
+					kindMismatchWhy(sk, ik))
 			}
 		}
 	}
@@ -655,4 +667,79 @@ func (c *Ctx) checkAutoPad(oi *opInfo) {
 	}
 	c.decide(validated, "R11", "R11:K4:autopad:unknown-refused", c.pos(init.Pos()), "an auto_pad string outside the declared modes is refused at Init",
 		"an auto_pad value outside NOTSET/SAME_UPPER/SAME_LOWER/VALID is not refused: it silently gets the else-class padding")
+}
+
+// checkSubImage: the window extractor slices axis 0 at [batch, batch+1), takes every channel, and
+// axis 2+i at [start_i, start_i + kernelShape[i]).
+func (c *Ctx) checkSubImage(f *ssa.Function) {
+	key := "R11:K3:" + fname(f) + ":slicers"
+	var terms []string
+	for _, b := range f.Blocks {
+		for _, in := range b.Instrs {
+			if cl, ok := in.(*ssa.Call); ok {
+				if sc := cl.Common().StaticCallee(); sc != nil && sc.Name() == "NewSlicer" {
+					terms = append(terms, c.term(cl, 0))
+				}
+			}
+		}
+	}
+	okBatch, okSpatial := false, false
+	for _, t := range terms {
+		if t == "NewSlicer(P2,(P2+1))" {
+			okBatch = true
+		}
+		if strings.HasPrefix(t, "NewSlicer(P3[") && strings.Contains(t, "+.kernelShape[") {
+			okSpatial = true
+		}
+	}
+	why := ""
+	if !okBatch {
+		why = "the window is not cut at [batch, batch+1) on axis 0 with the sample index it was asked for: every sample's output is computed from another (fixed) sample"
+	} else if !okSpatial {
+		why = "the window is not [start_i, start_i+kernelShape[i]) on the spatial axes"
+	}
+	c.decide(why == "", "R11", key, c.pos(f.Pos()), "slicers: [batch,batch+1), all channels, [start_i, start_i+kernel_i)", why+" (slicers: "+strings.Join(terms, "; ")+")")
+}
+
+// inSpatialLoop: block b lies in a loop whose induction variable ranges over the spatial axes.
+func (k *kindCtx) inSpatialLoop(b *ssa.BasicBlock) bool {
+	for _, h := range k.fn.Blocks {
+		isHdr := false
+		for _, p := range h.Preds {
+			if h.Dominates(p) {
+				isHdr = true
+			}
+		}
+		if !isHdr || !h.Dominates(b) || h == b {
+			continue
+		}
+		if !loopBlocks(h)[b] {
+			continue
+		}
+		for _, in := range h.Instrs {
+			if phi, ok := in.(*ssa.Phi); ok && isIntType(phi.Type()) {
+				if k.indexKind(phi, 0) == iSpatial {
+					return true
+				}
+				// range-style: phi + 1 is the index
+				for _, r := range *phi.Referrers() {
+					if bo, ok := r.(*ssa.BinOp); ok && bo.Op == token.ADD && k.indexKind(bo, 0) == iSpatial {
+						return true
+					}
+				}
+			}
+		}
+	}
+	return false
+}
+
+func kindMismatchWhy(sk dimKind, ik idxKind) string {
+	switch sk {
+	case kFull:
+		return fmt.Sprintf("a FULL list (one entry per tensor axis N,C,H,W..) is indexed with a %s index: spatial axis i of a tensor is axis 2+i of its shape, so this reads the batch/channel extents instead of the spatial ones (invisible on square fixtures)", ik)
+	case kSpatial:
+		return fmt.Sprintf("a SPATIAL list (one entry per spatial axis: strides, dilations, kernel shape) is indexed with a %s index: the entry of another axis (or none) is read", ik)
+	default:
+		return fmt.Sprintf("the pads list [x1_begin.., x1_end..] is indexed with a %s index: begin/end paddings of different axes are mixed", ik)
+	}
 }
